@@ -45,4 +45,9 @@ Spec == Init /\ [][Next]_vars
 Prefix   == fed = Range(0, Len(fed))                          \* every byte once, in order
 Whole    == done => fed = Range(0, len)                       \* nothing dropped
 SizeOK   == done => Len(fed) = len
+
+(* growth: every read makes progress, so the loop ends whatever the sizes of the short reads *)
+FairSpec   == Spec /\ WF_vars(Next)
+Terminates == <>done
+Progress   == [][pos' > pos \/ done']_vars
 =============================================================================
